@@ -221,6 +221,29 @@ int main(int argc, char** argv) {
     }
     op_checkall(); ops = 0;
   }
+  if (scenario && !strcmp(scenario, "span16")) {
+    /* blocks of (almost) the largest page size are placed into spans whose parts were freed one after the other and are still scheduled for
+       purging; they outlive the purge delay while the segment sees more activity (C01: contents kept; C13: purging never touches live data) */
+    static const size_t big[] = {((size_t)16 << 20) - 64, ((size_t)16 << 20) - 70000, ((size_t)15 << 20) + 4096, ((size_t)12 << 20), ((size_t)16 << 20) - 64};
+    for (int round = 0; round < 5; round++) {
+      int a = op_alloc_ex(A_malloc, (size_t)8 << 20, 0, 0, 0, 0), b = op_alloc_ex(A_malloc, ((size_t)8 << 20) - 70000, 0, 0, 0, 0);
+      int c0 = op_alloc_ex(A_malloc, (size_t)1 << 20, 0, 0, 0, 0);
+      if (a >= 0) op_free_slot(a, FR_free);
+      if (b >= 0) op_free_slot(b, FR_free);
+      int d = op_alloc_ex(A_malloc, big[round], 0, 0, 0, 0);
+#if defined(VF_SHIM)
+      vf_clock_advance(50);
+#else
+      usleep(30000);
+#endif
+      for (int k = 0; k < 6; k++) { int e = op_alloc_ex(A_malloc, ((size_t)1 << 20) + 4096 * (size_t)k, 0, 0, 0, 0); if (e >= 0 && k % 2 == 0) op_free_slot(e, FR_free); }
+      do_collect(0);
+      op_checkall();
+      if (c0 >= 0) op_free_slot(c0, FR_free);
+      if (d >= 0 && round % 2 == 0) op_free_slot(d, FR_free);
+    }
+    op_checkall(); ops = 0;
+  }
   if (scenario && !strcmp(scenario, "excldel")) {
     /* the only heap bound to an exclusive arena is deleted: its pages cannot go to the unbound backing heap, they are abandoned (whole
        segments: nobody else has pages there); afterwards the default heap allocates the same size classes -- outside the arena (C15) */
